@@ -21,8 +21,8 @@ import (
 // observation), with a watchdog for hangs.
 
 type totalCase struct {
-	Fam   string `json:"fam"`
-	Src   []int  `json:"src"`
+	Fam    string `json:"fam"`
+	Src    []int  `json:"src"`
 	Shape  string `json:"shape"`
 	N      int    `json:"n"`
 	Expect []int  `json:"expect"`
@@ -102,6 +102,20 @@ func scaleSource(shape string, n int) string {
 		uses := []string{"eval b == b", "print b", "eval b + 1", "eval not b", "eval b and 1", "f = b", "eval b == 1", "eval -b",
 			"eval b < b", "print b == nil", "var v = b\n eval v == v", "eval 1 == b", "eval \"s\" + b", "eval \"s\" * b", "eval b != b", "f = b\n eval f == b"}
 		sb.WriteString("def a {\n def b { x = 1 }\n " + uses[n%len(uses)] + "\n}\n")
+	case "unmarshal-nested":
+		// bound blocks whose nested blocks / nil values / block values meet target fields of every Go kind (see totalTarget)
+		sb.WriteString([]string{
+			"def a { def b { x = 1 } }\nbind a -> struct\n",
+			"def a { def c \"n\" { x = 1 } }\nbind a -> struct\n",
+			"def a { def x { y = 1 } }\nbind a:all -> slice\n",
+			"def a { def f { y = 1 } }\nbind a -> struct\n",
+			"def a { def e { y = 1 } }\nbind a -> struct\n",
+			"def a { b = nil }\nbind a -> struct\n",
+			"def a { def b {}\n f = b }\nbind a -> struct\n",
+			"def a \"nm\" { def s { x = 2 }\n def s \"k\" { x = 3 } }\nbind a -> struct\n",
+			"def a { def g { def b { x = 1 } } }\nbind a -> struct\n",
+			"def a { name = 3 }\ndef a { def name {} }\nbind a:last -> slice\n",
+		}[n%10])
 	case "div-int-zero":
 		sb.WriteString("print 1/0\n")
 	case "div-float-zero":
@@ -129,6 +143,20 @@ func scaleSource(shape string, n int) string {
 	return sb.String()
 }
 
+// the Unmarshal target of the C06 replays: fields of every kind a nested block, a nil or a block value may be aimed at
+// (an anonymous struct type: a named one would have to match the block type by name)
+type totalTarget = struct {
+	Name string
+	F    any
+	B    *int
+	C    map[string]int
+	X    []int
+	E    [2]int
+	S    struct{ X int }
+	G    *struct{ B int }
+	Y    int
+}
+
 type totalRes struct {
 	API   string `json:"api"`
 	Class string `json:"class"` // ok | error | panic
@@ -150,7 +178,7 @@ func runAPI(api string, src []byte) (r totalRes) {
 	}()
 	opts := []bcl.Option{bcl.OptLogger(io.Discard), bcl.OptOutput(io.Discard)}
 	var err error
-	var t struct{ Name string }
+	var t totalTarget
 	// the file variants get the input in 4096-byte pages, or (the "/z" entry points) in 8-byte reads each followed by a zero-byte read
 	zero := strings.HasSuffix(api, "/z")
 	api = strings.TrimSuffix(api, "/z")
@@ -171,6 +199,10 @@ func runAPI(api string, src []byte) (r totalRes) {
 		_, _, err = bcl.Interpret(src, opts...)
 	case "Unmarshal":
 		err = bcl.Unmarshal(src, &t, opts...)
+		if err == nil || true {
+			var ts []totalTarget
+			_ = bcl.Unmarshal(src, &ts, opts...) // and into a slice target
+		}
 	case "ParseFile":
 		_, err = bcl.ParseFile(file(), opts...)
 	case "InterpretFile":
